@@ -837,17 +837,23 @@ Definition conn_step (st : cstate) (th : thread) (s : side) (aok ok : bool) : op
     | _ => Some (goto (st_with_status st 5) t (TConn Beta ok), [Cn Alpha ok])
     end
   | Beta =>
-    let g := next_gen st in
-    match th_cmd th with
-    | CCreate _ =>
-      if ok then
-        let st1 := st_with_flags (st_with_arch (st_with_sess st (Some false)) (Some None)) true true (mgr_up st) false in
-        Some (goto (st_with_gen (st_with_loop st1 (Some (new_loop g true true))) (S g)) t (TRet true),
-              [Cn Beta true; IWriteSession false; IWriteArchive false None; ILoopStart g])
-      else Some (goto (st) t (TRet false), [Cn Beta false])
-    | _ =>
-      Some (goto (st_with_gen (st_with_loop st (Some (new_loop g aok ok))) (S g)) t (TRet (aok && ok)),
-            [Cn Beta ok; ILoopStart g])
+    (* the new loop replaces none: whoever connects holds the lifecycle lock
+       since the previous loop was joined *)
+    match loop st with
+    | Some _ => None
+    | None =>
+      let g := next_gen st in
+      match th_cmd th with
+      | CCreate _ =>
+        if ok then
+          let st1 := st_with_flags (st_with_arch (st_with_sess st (Some false)) (Some None)) true true (mgr_up st) false in
+          Some (goto (st_with_gen (st_with_loop st1 (Some (new_loop g true true))) (S g)) t (TRet true),
+                [Cn Beta true; IWriteSession false; IWriteArchive false None; ILoopStart g])
+        else Some (goto st t (TRet false), [Cn Beta false])
+      | _ =>
+        Some (goto (st_with_gen (st_with_loop st (Some (new_loop g aok ok))) (S g)) t (TRet (aok && ok)),
+              [Cn Beta ok; ILoopStart g])
+      end
     end
   end.
 
@@ -981,7 +987,7 @@ Definition step (st : cstate) (a : action) : option (cstate * list event) :=
   | ANewManager =>
     match threads st with
     | [] =>
-      if mgr_up st then None
+      if mgr_up st || is_some (loop st) then None
       else match sess_file st with
            | Some p =>
              let g := next_gen st in
